@@ -123,6 +123,30 @@ var c16Contexts = []ctxTemplate{
 	{"twice-select-list-and-having", "SELECT ({C}) FROM t GROUP BY a HAVING {C}"},
 }
 
+// contexts that carry a documented finding of their own (a flagged call around, or beside, the place of the payload):
+// the payload's findings are due in addition, and a benign condition leaves exactly the context's own
+var c16CtxOwn = map[string][]string{
+	"inside-sleep-case":       {"TIME_BASED:HIGH"},
+	"inside-benchmark-arg":    {"TIME_BASED:HIGH"},
+	"inside-load-file-case":   {"OUT_OF_BAND:CRITICAL"},
+	"inside-pg-sleep-nested":  {"TIME_BASED:HIGH"},
+	"beside-sleep-and":        {"TIME_BASED:HIGH"},
+	"beside-load-file-select": {"OUT_OF_BAND:CRITICAL"},
+	"after-sleep-statement":   {"TIME_BASED:HIGH"},
+}
+
+func init() {
+	c16Contexts = append(c16Contexts,
+		ctxTemplate{"inside-sleep-case", "SELECT a FROM t WHERE SLEEP(CASE WHEN {C} THEN 5 ELSE 0 END) = 0"},
+		ctxTemplate{"inside-benchmark-arg", "SELECT a FROM t WHERE BENCHMARK(10, ({C})) = 0"},
+		ctxTemplate{"inside-load-file-case", "SELECT LOAD_FILE(CASE WHEN {C} THEN 'a' ELSE 'b' END) FROM t"},
+		ctxTemplate{"inside-pg-sleep-nested", "SELECT a FROM t WHERE pg_sleep(COALESCE((SELECT 1 FROM u WHERE {C}), 2)) IS NULL"},
+		ctxTemplate{"beside-sleep-and", "SELECT a FROM t WHERE SLEEP(1) = 0 AND ({C})"},
+		ctxTemplate{"beside-load-file-select", "SELECT LOAD_FILE('/x'), a FROM t WHERE {C}"},
+		ctxTemplate{"after-sleep-statement", "SELECT SLEEP(2); SELECT a FROM t WHERE {C}"},
+	)
+}
+
 var mixedCaseKeywords = map[string]bool{}
 
 func init() {
@@ -277,6 +301,9 @@ func runC16(c *runCtx) {
 			if strings.HasPrefix(ctx.name, "twice-") {
 				want = append(append([]string{}, p.want...), p.want...)
 			}
+			if own := c16CtxOwn[ctx.name]; own != nil {
+				want = append(append([]string{}, p.want...), own...)
+			}
 			for li, lay := range layouts(c.rng, sql) {
 				if c.quick && li > 1 && li < 4 && (n%3 != 0) {
 					n++
@@ -296,7 +323,7 @@ func runC16(c *runCtx) {
 		if err != nil {
 			continue
 		}
-		if r := security.NewScanner().Scan(tree); len(r.Findings) != 0 {
+		if r := security.NewScanner().Scan(tree); strings.Join(sortedCopy(findingsKey(r)), ",") != strings.Join(sortedCopy(c16CtxOwn[ctx.name]), ",") {
 			res.fail("benign-flagged:"+ctx.name, "a statement with a benign condition is reported", map[string]any{"sql": sql}, map[string]any{"got": findingsKey(r)})
 		}
 		res.count(sql, true)
@@ -353,7 +380,20 @@ func runC16(c *runCtx) {
 			{"lower-case", func(t string) string { return lowerOutsideQuotes(t) }},
 			{"upper-case", func(t string) string { return upperOutsideQuotes(t) }},
 		}
-		for _, t := range texts {
+		// one text per pattern of the raw-text scan (every comment form, every call and statement form): thresholds and counters only
+		patternTexts := []string{
+			"SELECT a FROM t WHERE id = 1 --", "SELECT a FROM t WHERE n = 'x' --' AND p = 'y'", "SELECT a FROM t WHERE n = (1) --) AND p = 2", "SELECT a FROM t /* c */", "SELECT /*!50000 a */ FROM t",
+			"SELECT a FROM t #", "SELECT a FROM t; -- x", "SELECT a FROM t WHERE id = 1 OR SLEEP(5); -- x", "SELECT a FROM t WHERE n = '' OR 1=1 --' AND p = ''", "SELECT LOAD_FILE('/x'); --",
+			"SELECT DBMS_LOCK.SLEEP(5) FROM dual", "SELECT UTL_HTTP.request('x') FROM dual", "SELECT DBMS_LDAP.init('x', 1) FROM dual", "EXEC master..xp_dirtree 'x'", "EXEC sp_oacreate 'x'",
+			"EXEC('select 1')", "EXECUTE IMMEDIATE 'select 1'", "EXEC sp_executesql N'select 1'", "PREPARE s FROM 'select 1'", "SELECT 1; EXEC x", "SELECT 1; EXECUTE x", "SELECT 1; TRUNCATE TABLE t",
+			"SELECT a FROM t UNION SELECT b FROM information_schema.tables; DROP TABLE t --", "SELECT a FROM t WHERE id = 1 OR SLEEP(5) -- ' x", "EXEC('x'); -- y",
+		}
+		isPatternText := map[string]bool{}
+		for _, t := range patternTexts {
+			isPatternText[t] = true
+		}
+		sevSeen := map[string]map[string]bool{}
+		for _, t := range append(append([]string{}, texts...), patternTexts...) {
 			baseR := security.NewScanner().ScanSQL(t)
 			base := findingsKey(baseR)
 			res.count("scansql|"+t, true)
@@ -363,6 +403,35 @@ func runC16(c *runCtx) {
 			}
 			if baseR.TotalCount != len(baseR.Findings) || baseR.CriticalCount+baseR.HighCount+baseR.MediumCount+baseR.LowCount != len(baseR.Findings) {
 				res.fail("scansql-counts", "the counters of a ScanSQL result do not equal its findings", map[string]any{"text": t}, nil)
+			}
+			for _, sv := range sevs {
+				sc, _ := security.NewScannerWithSeverity(sv)
+				r := sc.ScanSQL(t)
+				var wantF []string
+				for _, f := range base {
+					if rank[strings.SplitN(f, ":", 2)[1]] >= rank[string(sv)] {
+						wantF = append(wantF, f)
+					}
+				}
+				if strings.Join(findingsKey(r), ",") != strings.Join(wantF, ",") {
+					res.fail("scansql-threshold", "raising the minimum severity of the raw-text scan does not remove exactly the findings below it", map[string]any{"text": t, "threshold": sv}, map[string]any{"got": findingsKey(r), "want": wantF})
+				}
+				cnt := map[string]int{}
+				for _, f := range r.Findings {
+					cnt[string(f.Severity)]++
+				}
+				if r.TotalCount != len(r.Findings) || r.CriticalCount != cnt["CRITICAL"] || r.HighCount != cnt["HIGH"] || r.MediumCount != cnt["MEDIUM"] || r.LowCount != cnt["LOW"] {
+					res.fail("scansql-counts", "the counters of a ScanSQL result do not equal its findings", map[string]any{"text": t, "threshold": sv}, nil)
+				}
+			}
+			for _, f := range baseR.Findings {
+				if sevSeen[string(f.Pattern)] == nil {
+					sevSeen[string(f.Pattern)] = map[string]bool{}
+				}
+				sevSeen[string(f.Pattern)][string(f.Severity)] = true
+			}
+			if isPatternText[t] {
+				continue
 			}
 			for _, rl := range relayouts {
 				v := rl.f(t)
@@ -376,7 +445,22 @@ func runC16(c *runCtx) {
 				}
 			}
 		}
+		res.Notes = append(res.Notes, "raw-text scan, (pattern = severities) met by the texts: "+severitiesNote(sevSeen))
 	}
+}
+
+func severitiesNote(m map[string]map[string]bool) string {
+	var ks []string
+	for k, v := range m {
+		var ss []string
+		for s := range v {
+			ss = append(ss, s)
+		}
+		sort.Strings(ss)
+		ks = append(ks, k+"="+strings.Join(ss, "/"))
+	}
+	sort.Strings(ks)
+	return strings.Join(ks, " ")
 }
 
 func containsMultiset(got, want []string) bool {
